@@ -31,10 +31,13 @@ pub mod vstd {
   pub mod sync {
     pub use std::sync::*;
     pub use rxverif_rt::sync::{
-      Condvar, Mutex, MutexGuard, RwLock, RwLockReadGuard, RwLockWriteGuard, WaitTimeoutResult,
+      Barrier, BarrierWaitResult, Condvar, Mutex, MutexGuard, RwLock, RwLockReadGuard, RwLockWriteGuard, WaitTimeoutResult,
     };
     pub mod atomic {
       pub use rxverif_rt::sync::atomic::*;
+    }
+    pub mod mpsc {
+      pub use rxverif_rt::sync::mpsc::*;
     }
   }
   pub mod thread {
@@ -52,8 +55,7 @@ pub mod vstd {
 }
 '''
 
-ACCESSORS = {
-  'src/subjects/subject.rs': r'''
+SUBJECT_ACCESSOR = r'''
 
 // ---- appended by /verif/tools/instrument.py: read-only probe ----
 impl<'a, Item> Subject<'a, Item>
@@ -62,14 +64,10 @@ where
 {
   #[doc(hidden)]
   pub fn verif_observer_count(&self) -> usize {
-    self.observers.read().unwrap().len()
+    self.%s.read().unwrap().len()
   }
 }
-''',
-  'src/subjects/behavior_subject.rs': ('BehaviorSubject', None),
-  'src/subjects/replay_subject.rs': ('ReplaySubject', None),
-  'src/subjects/async_subject.rs': ('AsyncSubject', None),
-}
+'''
 
 FORWARD = r'''
 
@@ -80,10 +78,57 @@ where
 {
   #[doc(hidden)]
   pub fn verif_observer_count(&self) -> usize {
-    self.subject.verif_observer_count()
+    self.%s.verif_observer_count()
   }
 }
 '''
+
+WRAPPERS = {
+  'src/subjects/behavior_subject.rs': 'BehaviorSubject',
+  'src/subjects/replay_subject.rs': 'ReplaySubject',
+  'src/subjects/async_subject.rs': 'AsyncSubject',
+}
+
+
+def struct_fields(text, name):
+  """[(field, type)] of `pub struct <name><..> where .. { .. }` (first match)"""
+  m = re.search(r'struct\s+' + name + r'\b[^{;]*\{', text)
+  if not m:
+    return []
+  i = m.end()
+  depth = 1
+  j = i
+  while j < len(text) and depth > 0:
+    if text[j] == '{':
+      depth += 1
+    elif text[j] == '}':
+      depth -= 1
+    j += 1
+  body = text[i:j - 1]
+  out = []
+  for line in re.split(r',\s*\n', body):
+    fm = re.match(r'\s*(?:pub(?:\([^)]*\))?\s+)?([A-Za-z_][A-Za-z0-9_]*)\s*:\s*(.+)', line.strip(), re.S)
+    if fm:
+      out.append((fm.group(1), ' '.join(fm.group(2).split())))
+  return out
+
+
+def accessor_for(rel, text):
+  """the probe appended to a subject file; robust against renamed fields"""
+  if rel == 'src/subjects/subject.rs':
+    fields = struct_fields(text, 'Subject')
+    cands = [f for f, t in fields if 'HashMap' in t and 'Observer' in t]
+    if not cands:
+      cands = [f for f, t in fields if 'Observer' in t]
+    field = cands[0] if cands else 'observers'
+    return SUBJECT_ACCESSOR % field
+  if rel in WRAPPERS:
+    name = WRAPPERS[rel]
+    fields = struct_fields(text, name)
+    cands = [f for f, t in fields if re.search(r'\bSubject\s*<', t)]
+    field = cands[0] if cands else 'subject'
+    return FORWARD % (name, field)
+  return None
 
 
 def rewrite(text):
@@ -172,11 +217,9 @@ def main():
         t = rewrite(data.decode())
         if rel == 'src/lib.rs':
           t += VSTD
-        acc = ACCESSORS.get(rel)
-        if isinstance(acc, str):
+        acc = accessor_for(rel, t)
+        if acc:
           t += acc
-        elif isinstance(acc, tuple):
-          t += FORWARD % acc[0]
         data = t.encode()
       emit(rel, data)
 
